@@ -90,6 +90,19 @@ pub enum G {
     RepCount(&'static G, Cnt, Cnt),
     /// item, separator, lo, hi, allow_leading (bool param or const), allow_trailing
     Sep(&'static G, &'static G, Cnt, Cnt, Flag, Flag),
+    /// repeated().at_least(lo).at_most(hi) used as a unit parser (`Parser<()>` impl), observed through
+    /// to_slice: output = number of tokens consumed
+    RepUnit(&'static G, Cnt, Cnt),
+    /// separated_by(..) used as a unit parser, observed through to_slice
+    SepUnit(&'static G, &'static G, Cnt, Cnt, Flag, Flag),
+    /// separated_by(..).count()
+    SepCount(&'static G, &'static G, Cnt, Cnt, Flag, Flag),
+    /// repeated().collect_exactly::<[_; 2]>(): exactly two items are taken (a third is left unconsumed)
+    CollectEx2(&'static G),
+    /// repeated().at_least(lo).at_most(hi).enumerate().collect(): every item followed by its index
+    Enum(&'static G, Cnt, Cnt),
+    /// `a.lazy()`: a, then anything
+    Lazy(&'static G),
     /// any().repeated() — consumes everything; output = count marker
     Rest,
     /// foldl(a, b.repeated()): non-commutative fold `acc = acc.cat(item).tag(3)`
@@ -457,6 +470,35 @@ pub fn eval(g: &G, pos: usize, env: &mut Env) -> R {
             let (items, n, p) = sep_by(item, sep, pos, env, lo, hi, lead, trail)?;
             Some((Tr::list(&items[..n]), p))
         }
+        G::RepUnit(a, lo, hi) => {
+            let (_, _, p) = rep(a, pos, env, lo, hi)?;
+            Some((Tr::unit().push(0xC0 | ((p - pos) as u8 & 0x0f)), p))
+        }
+        G::SepUnit(item, sep, lo, hi, lead, trail) => {
+            let (_, _, p) = sep_by(item, sep, pos, env, lo, hi, lead, trail)?;
+            Some((Tr::unit().push(0xC0 | ((p - pos) as u8 & 0x0f)), p))
+        }
+        G::SepCount(item, sep, lo, hi, lead, trail) => {
+            let (_, n, p) = sep_by(item, sep, pos, env, lo, hi, lead, trail)?;
+            Some((Tr::unit().push(0xC0 | (n as u8 & 0x0f)), p))
+        }
+        G::CollectEx2(a) => {
+            let (items, n, p) = rep(a, pos, env, Cnt::K(2), Cnt::K(2))?;
+            Some((Tr::list(&items[..n]), p))
+        }
+        G::Enum(a, lo, hi) => {
+            let (mut items, n, p) = rep(a, pos, env, lo, hi)?;
+            let mut i = 0;
+            while i < n {
+                items[i] = items[i].push(i as u8);
+                i += 1;
+            }
+            Some((Tr::list(&items[..n]), p))
+        }
+        G::Lazy(a) => {
+            let (x, _) = eval(a, pos, env)?;
+            Some((x, len))
+        }
         G::Rest => Some((Tr::unit().push(0xC0 | ((len - pos) as u8 & 0x0f)), len)),
         G::Foldl(a, b) => {
             let (mut acc, mut p) = eval(a, pos, env)?;
@@ -646,7 +688,8 @@ fn sep_by(
             }
             None => {
                 // item failed: the separator just consumed is a trailing one if allowed, else given back
-                if took_sep && trail && (n > 0 || env.perm & 2 == 2) {
+                // (zero items: whether a consumed LEADING separator stays consumed is the permissive corner)
+                if took_sep && ((trail && n > 0) || (n == 0 && env.perm & 2 == 2)) {
                     env.n_emis = mi;
                     p = q;
                 } else {
